@@ -3,7 +3,7 @@
    by the actual bits and the formal parameters by the actual values, in order ("every call site is replaced by the body of
    its definition with actuals substituted for formals") -- added to the whole-program judgement of Lang/BroadcastProofs.v. *)
 From Coq Require Import ZArith List Bool String Lia.
-From Verif Require Import Aexp BGate PyVal CastPrim Ast State GatesGen GateLib Unroll ResolveProofs Depth DepthModel ExprProofs FixProofs LoopProofs BroadcastProofs.
+From Verif Require Import Aexp BGate PyVal CastPrim Ast State GatesGen GateLib Unroll ResolveProofs Depth DepthModel ExprProofs FixProofs LoopProofs BroadcastProofs ModUnrollProofs.
 Import ListNotations.
 Open Scope Z_scope.
 
@@ -335,7 +335,11 @@ Definition gtop_step (env : renv) (G : genv) (stm : stmt) : option (renv * genv 
   | _ =>
       match gcall_ok env G stm with
       | Some out => Some (env, G, out, evs_of out)
-      | None => match ptop_step env stm with Some (env', out, evs) => Some (env', G, out, evs) | None => None end
+      | None =>
+          match mod_ok env stm with
+          | Some (out, evs) => Some (env, G, out, evs)
+          | None => match ptop_step env stm with Some (env', out, evs) => Some (env', G, out, evs) | None => None end
+          end
       end
   end.
 
@@ -407,7 +411,10 @@ Proof.
                                gates s1 = G' /\ gstack s1 = []).
     { assert (Hother : (match gcall_ok env G stm with
                         | Some out => Some (env, G, out, evs_of out)
-                        | None => match ptop_step env stm with Some (env', out, evs) => Some (env', G, out, evs) | None => None end
+                        | None => match mod_ok env stm with
+                                  | Some (out, evs) => Some (env, G, out, evs)
+                                  | None => match ptop_step env stm with Some (env', out, evs) => Some (env', G, out, evs) | None => None end
+                                  end
                         end) = Some (env', G', out, ev1) -> 
                        exists s1, visit_stmt false [] fuel stm s = Ok (out, s1) /\ Top env' s1 /\
                                num_qubits s1 = num_qubits s + total_qubits out /\ num_clbits s1 = num_clbits s + total_clbits out /\
@@ -427,7 +434,14 @@ Proof.
           destruct (DE_counts _ _ D1) as [Nq Nc]. destruct (gframe_DE _ _ D1) as [Fg Fs].
           exists s1. split; [exact E1|]. split; [eapply Top_DE; eauto|]. split; [lia|]. split; [lia|]. split; [exact S1|].
           split; [intros r0; now apply wf_flat_ops|]. split; congruence.
-        - destruct (ptop_step env stm) as [[[env'' out''] evs'']|] eqn:Ep; [|discriminate Eo]. injection Eo as <- <- <- <-.
+        - destruct (mod_ok env stm) as [[mo me]|] eqn:Emo.
+          { injection Eo as <- <- <- <-. destruct fuel as [|f]; [lia|].
+            destruct (mod_fix false f env s stm mo me (T_regs _ _ T) Emo) as (s1 & E1 & D1 & S1).
+            pose proof (mod_ok_ops env stm mo me Emo) as Ops. destruct (total_ops env mo Ops) as [Tq Tc].
+            destruct (DE_counts _ _ D1) as [Nq Nc]. destruct (gframe_DE _ _ D1) as [Fg Fs].
+            exists s1. split; [exact E1|]. split; [eapply Top_DE; eauto|]. split; [lia|]. split; [lia|]. split; [exact S1|].
+            split; [intros r0; now apply wf_flat_ops|]. split; congruence. }
+          destruct (ptop_step env stm) as [[[env'' out''] evs'']|] eqn:Ep; [|discriminate Eo]. injection Eo as <- <- <- <-.
           destruct (ptop_fix fuel env env'' s stm out'' evs'') as (s1 & E1 & T1 & Nq & Nc & S1 & W1 & [Fg Fs]); [lia|exact T|exact Ep|].
           exists s1. repeat (split; [assumption|]). split; congruence. }
       destruct stm; try (apply Hother; exact Es).
@@ -541,7 +555,10 @@ Proof.
         destruct (gframe_DE _ _ D1) as [Fg Fs]. split; [eapply Top_DE; eauto|]. split; [lia|]. split; [lia|]. split; congruence. }
       assert (Hother : (match gcall_ok env G stm with
                         | Some out => Some (env, G, out, evs_of out)
-                        | None => match ptop_step env stm with Some (env', out, evs) => Some (env', G, out, evs) | None => None end
+                        | None => match mod_ok env stm with
+                                  | Some (out, evs) => Some (env, G, out, evs)
+                                  | None => match ptop_step env stm with Some (env', out, evs) => Some (env', G, out, evs) | None => None end
+                                  end
                         end) = Some (env', G', out, ev1) ->
                        exists s1, visit_stmt true [] fuel stm s = Ok ([], s1) /\ Top env' s1 /\
                                num_qubits s1 = num_qubits s + total_qubits out /\ num_clbits s1 = num_clbits s + total_clbits out /\
@@ -557,7 +574,11 @@ Proof.
           destruct (custom_call_fix true f env s name gd vs bs out' (T_regs _ _ T)) as (s1 & E1 & D1 & S1); auto.
           { now rewrite HG. } { now rewrite Hst. }
           exists s1. split; [exact E1|]. apply HDE; auto. eapply call_out_ops; eauto.
-        - destruct (ptop_step env stm) as [[[env'' out''] evs'']|] eqn:Ep; [|discriminate Eo]. injection Eo as <- <- <- <-.
+        - destruct (mod_ok env stm) as [[mo me]|] eqn:Emo.
+          { injection Eo as <- <- <- <-. destruct fuel as [|f]; [lia|].
+            destruct (mod_fix true f env s stm mo me (T_regs _ _ T) Emo) as (s1 & E1 & D1 & S1).
+            exists s1. split; [exact E1|]. apply HDE; auto. eapply mod_ok_ops; eauto. }
+          destruct (ptop_step env stm) as [[[env'' out''] evs'']|] eqn:Ep; [|discriminate Eo]. injection Eo as <- <- <- <-.
           unfold ptop_step in Ep. destruct (loop_ok env stm) as [lo|] eqn:El.
           + injection Ep as <- <- <-. destruct fuel as [|[|f]]; try lia.
             destruct (loop_fix_validate f env s stm lo T El) as (s1 & E1 & D1).
